@@ -8,6 +8,7 @@ CONSTANTS
   Weak_NoWitnessNeeded = FALSE
   Weak_BackwardsUnbound = FALSE
   Weak_ReplacementHashUnchecked = FALSE
+  Weak_PromotedWitnessStays = FALSE
 INIT Init
 NEXT Next
 CHECK_DEADLOCK FALSE
